@@ -1,7 +1,7 @@
 """C09 — see DESIGN.md §5 C09.  Cases: every conditional class × batch regime × Dx⋛Dy."""
 from .condfam import *
 PROPERTY = "C09"
-LEAN_MODULES = ["GT.Props.C09"]
+LEAN_MODULES = ["GT.Props.C09", "GT.Props.C09Id"]
 ASSUMPTIONS = ["float64 rounding outside the theorems; inputs with condition number <= 1e4"]
 
 def cases(seed, tier):
